@@ -150,7 +150,42 @@ func main() {
 			walk(fn.Body.List)
 		}
 	}
+	// UnprefixedHashes: does it strip the prefixes inside target.Hashes (slice expression shares the backing
+	// array) or on a copy?
+	aliases := false
+	{
+		uh := core.Func("BuildTarget.UnprefixedHashes")
+		recv := uh.Recv.List[0].Names[0].Name
+		as, ok := uh.Body.List[0].(*ast.AssignStmt)
+		if !ok || len(as.Lhs) != 1 || len(as.Rhs) != 1 {
+			xlib.Unreadable("UnprefixedHashes: first statement is not an assignment")
+		}
+		switch strings.ReplaceAll(core.Src(as.Rhs[0]), recv+".", "target.") {
+		case "target.Hashes[:]", "target.Hashes":
+			aliases = true
+		case "slices.Clone(target.Hashes)", "append([]string(nil), target.Hashes...)", "append([]string{}, target.Hashes...)":
+			aliases = false
+		default:
+			xlib.Unreadable("UnprefixedHashes: unrecognised initialisation %s", core.Src(as.Rhs[0]))
+		}
+		local := as.Lhs[0].(*ast.Ident).Name
+		writes := false
+		ast.Inspect(uh.Body, func(n ast.Node) bool {
+			if a, ok := n.(*ast.AssignStmt); ok && len(a.Lhs) == 1 {
+				if ix, ok := a.Lhs[0].(*ast.IndexExpr); ok {
+					if id, ok := ix.X.(*ast.Ident); ok && id.Name == local {
+						writes = true
+					}
+				}
+			}
+			return true
+		})
+		if !writes {
+			xlib.Unreadable("UnprefixedHashes: no element assignment found")
+		}
+	}
 	var b strings.Builder
+	fmt.Fprintf(&b, "def unprefixedAliases : Bool := %s\n", xlib.LeanBool(aliases))
 	b.WriteString("def mapRanges : List (String × String × String) := [\n")
 	for i, x := range fs {
 		fmt.Fprintf(&b, "  (%s, %s, %s)", xlib.LeanStr(x.fn), xlib.LeanStr(x.expr), xlib.LeanStr(x.class))
